@@ -156,6 +156,30 @@ def run_impl(case):
     return out
 
 
+def resid_tol(case, impl, base=1e-9):
+    """Tolerance for the per-step residual max|A x - b| / max(floor, max|b|) reported by the float model.
+    base = rounding level for well-scaled steps; a backward-stable solve leaves a residual of a few eps * |A| |x|, which
+    relative to |b| is eps * (1 + 4 k_max) * m_i / max|b|: negligible for ordinary steps, dominant for the 'huge' grids
+    (mesh ratios up to 1e12).  A solver run with a loose tolerance (rtol 1e-5) still exceeds this by orders of magnitude
+    wherever k_max <= 1e6."""
+    eps = 2.220446049250313e-16
+    t = np.asarray(case["times"], float)
+    if len(t) < 2:
+        return base
+    nx = case["nx"]
+    if case["kind"] == "ideal":
+        kmax = float(np.diff(t).max()) * float(max(nx - 1, 1)) ** 2
+        amp = 1.0 / 0.01     # floor = 0.01 x the initial scale
+    else:
+        fp = impl.get("fp")
+        if fp is None:
+            return base
+        a = np.asarray(fp.pvt_props["alpha"], float)
+        kmax = float(np.diff(t).max()) * float(nx) ** 2 * float(a.max() / fp.alpha(fp.m_i))
+        amp = 1.0 / 0.01
+    return base + 50 * eps * (1 + 4 * kmax) * amp
+
+
 # ------------------------------------------------------------------------------ Coq emission
 def fl(x):
     x = float(x)
